@@ -25,7 +25,7 @@ EXPLANATION = (
 NOT_DECIDED = ["bytes identical to the embedded file; content type; pixel size", "that no image is invented (relationship parsing is value level)"]
 TRUSTED = ["may-raise table (listed in the explanation); string methods, slicing, dataclass constructors and the dimension sniffers are assumed not to raise",
            "CFG path enumeration (cap 4096 paths per loop body; a capped loop is residual)"]
-FLOORS = {"C14-JPEG": 4, "C14-PAIR": 12, "C14-BYTES": 20, "C14-VIEW": 6, "C14-REF": 1}
+FLOORS = {"C14-JPEG": 4, "C14-PAIR": 12, "C14-BYTES": 20, "C14-VIEW": 6, "C14-REF": 1, "C14-CHAIN": 8}
 
 MAY_RAISE_CALLS = {"read_bytes", "get_image_data", "read_xml_root", "read_text", "read", "open_stream", "fromhex", "unpack", "unpack_from", "b64decode", "a2b_hex", "unhexlify", "decompress"}
 MAY_RAISE_FUNCS = {"int", "float", "bytes.fromhex", "struct.unpack", "struct.unpack_from", "base64.b64decode"}
@@ -385,4 +385,54 @@ def rule_jpeg(ctx: Ctx) -> RuleReport:
     return rep
 
 
-RULES = [rule_pair, rule_bytes, rule_view, rule_ref, rule_jpeg]
+PDFX = X + "pdf/pdf_extractor.py"
+SUBTYPE = {"jpeg": "image/jpeg", "jp2": "image/jp2", "png": "image/png", "tiff": "image/tiff", "jbig2": "image/jbig2"}  # format name -> MIME type (IANA)
+
+
+def rule_chain(ctx: Ctx) -> RuleReport:
+    """'the matching content type' for PDF images: the two filter tables agree, and a filter chain is named by its LAST filter
+    (PDF 32000-1 §7.4.1: filters are applied in array order when decoding, so what remains after pypdf undid the others is the last one)."""
+    rep = RuleReport("C14-CHAIN", "PDF image format and content type: both filter tables have the same keys and matching values; a /Filter array is judged by its last element")
+    fmt = ctx.const(PDFX, "FILTER_TO_FORMAT")
+    cty = ctx.const(PDFX, "FILTER_TO_CONTENT_TYPE")
+    if not isinstance(fmt, dict) or not isinstance(cty, dict):
+        raise AnalysisError("C14-CHAIN: FILTER_TO_FORMAT / FILTER_TO_CONTENT_TYPE are no longer constant dicts")
+    for k in sorted(set(fmt) | set(cty)):
+        if k not in fmt or k not in cty:
+            rep.fail(Finding("C14-CHAIN", PDFX, "FILTER_TO_FORMAT", f"filter {k}", f"filter {k} is in only one of FILTER_TO_FORMAT / FILTER_TO_CONTENT_TYPE: its images get a format without the matching content type"))
+        elif SUBTYPE.get(fmt[k]) != cty[k]:
+            rep.fail(Finding("C14-CHAIN", PDFX, "FILTER_TO_CONTENT_TYPE", f"filter {k}: {fmt[k]} / {cty[k]}", f"filter {k} maps to format {fmt[k]!r} but content type {cty[k]!r}"))
+        else:
+            rep.ok({"filter": k, "format": fmt[k], "content_type": cty[k]})
+    ei = ctx.p.func(PDFX, "_extract_image")
+    rep.unit(ei.key)
+    fv = {n.targets[0].id for n in walk_own(ei.node) if isinstance(n, ast.Assign) and len(n.targets) == 1 and isinstance(n.targets[0], ast.Name) and any(isinstance(c, ast.Constant) and c.value == "/Filter" for c in ast.walk(n.value))}
+    if len(fv) != 1:
+        raise AnalysisError("C14-CHAIN: the /Filter entry is no longer read into one local of _extract_image")
+    V = next(iter(fv))
+    lookups = [c for c in calls_in(ei) if isinstance(c.func, ast.Attribute) and c.func.attr == "get" and norm(c.func.value) in ("FILTER_TO_FORMAT", "FILTER_TO_CONTENT_TYPE")]
+    if len(lookups) != 2 or any(not (c.args and isinstance(c.args[0], ast.Name) and c.args[0].id == V) for c in lookups):
+        rep.fail(Finding("C14-CHAIN", PDFX, ei.qual, "lookups: " + "; ".join(anorm(c, ei.node) for c in lookups), "format and content type are not both looked up with the image's /Filter value", line=ei.node.lineno))
+    else:
+        rep.ok({"lookups": "both tables, same key"})
+    picks = []
+    for i in walk_own(ei.node):
+        if isinstance(i, ast.If) and isinstance(i.test, ast.Call) and norm(i.test.func) == "isinstance" and len(i.test.args) == 2 and norm(i.test.args[0]) == V:
+            for sub in ast.walk(i):
+                if isinstance(sub, ast.Subscript) and isinstance(sub.value, ast.Name) and sub.value.id == V and isinstance(sub.ctx, ast.Load):
+                    picks.append(sub)
+    if not picks:
+        raise AnalysisError("C14-CHAIN: no element of a /Filter array is selected in _extract_image (chain handling not recognised)")
+    for sub in picks:
+        idx = sub.slice
+        val = ctx.folder.fold(ei.module, idx)
+        if val == -1 or norm(idx) == f"len({V}) - 1":
+            rep.ok({"chain": f"{V}[-1] (last filter)"})
+        elif isinstance(val, int):
+            rep.fail(Finding("C14-CHAIN", PDFX, ei.qual, f"chain element [{val}]", f"a /Filter array is judged by element [{val}]: decoding applies the filters in order, so the data returned by get_data() is in the format of the LAST filter — a JPEG stored as [/FlateDecode /DCTDecode] is returned with JPEG bytes but labelled image/png", line=sub.lineno))
+        else:
+            raise AnalysisError(f"C14-CHAIN: index `{norm(idx)}` into the /Filter array is not a recognised constant")
+    return rep
+
+
+RULES = [rule_pair, rule_bytes, rule_view, rule_ref, rule_jpeg, rule_chain]
